@@ -324,6 +324,20 @@ func (r *EngineRunner) crashLines(f []string, emit func(line, res string)) {
 	if len(ks) == 0 || ks[len(ks)-1] != to {
 		ks = append(ks, to)
 	}
+	if step > 1 {
+		// the last events are never thinned out: a merge ends with the marker being created, written,
+		// synced and closed; an adoption ends with the renames and the removal of the merge directory
+		have := map[int]bool{}
+		for _, k := range ks {
+			have[k] = true
+		}
+		for k := to - 10; k <= to; k++ {
+			if k > from && !have[k] {
+				ks = append(ks, k)
+			}
+		}
+		sort.Ints(ks)
+	}
 	mmap := r.opts.FileIOType == fio.MemoryMap
 	for _, k := range ks {
 		cuts := []string{"none"}
@@ -371,6 +385,16 @@ func (r *EngineRunner) crashLines(f []string, emit func(line, res string)) {
 				}
 			}
 		}
+		// a torn write of the merge-finished marker (written, not yet synced): 1 or 3 of its 4 bytes survive.
+		// For the engine that is a marker it cannot read - the state right after the marker was created.
+		if !mmap && k > 0 {
+			files, _ := r.shadow.at(k)
+			for p, sf := range files {
+				if filepath.Dir(p) == r.mergeDir() && strings.Contains(filepath.Base(p), "merge-fin") && len(sf.data) == 4 && sf.durable < 4 {
+					cuts = append(cuts, "marker:1", "marker:3")
+				}
+			}
+		}
 		for _, cut := range cuts {
 			root, err := os.MkdirTemp(r.Root, "img")
 			if err != nil {
@@ -382,6 +406,14 @@ func (r *EngineRunner) crashLines(f []string, emit func(line, res string)) {
 				cutf = func(p string, sf shadowFile) int64 {
 					if filepath.Dir(p) == r.dir() && strings.HasSuffix(p, ".data") {
 						return sf.durable
+					}
+					return -1
+				}
+			case strings.HasPrefix(cut, "marker:"):
+				n := int64(atoi(strings.TrimPrefix(cut, "marker:")))
+				cutf = func(p string, sf shadowFile) int64 {
+					if filepath.Dir(p) == r.mergeDir() && strings.Contains(filepath.Base(p), "merge-fin") {
+						return n
 					}
 					return -1
 				}
@@ -404,6 +436,13 @@ func (r *EngineRunner) crashLines(f []string, emit func(line, res string)) {
 			oc := cut
 			if strings.HasPrefix(cut, "at:") {
 				oc = "durable" // a byte cut guarantees what the durable cut guarantees
+			}
+			if strings.HasPrefix(cut, "marker:") {
+				// same outcome as a crash right after the marker file was created (one event earlier)
+				r.crashOracle(k-1, "none", res, d1, d2)
+				emit(fmt.Sprintf("E crashat %d none %s", k-1, strings.Join(cfg, " ")), res)
+				_ = os.RemoveAll(root)
+				continue
 			}
 			r.crashOracle(k, oc, res, d1, d2)
 			cutTok := strings.TrimSuffix(cut, ":hdr")
